@@ -88,7 +88,8 @@ pub fn line_to_cmds(line: &str) -> Vec<String> {
         }
 
         if c == '#' {
-            if sep.is_empty() {
+            // a comment starts where a word could start, not inside one
+            if sep.is_empty() && (token.is_empty() || token.ends_with(' ')) {
                 break;
             } else {
                 token.push(c);
